@@ -62,8 +62,27 @@ var v06fShapes = [][][][]int{
 // verif:desc C06-O8 the merge OPERATOR executed with its real pullers (merge.New, Op.Pull/run/start/Read/Less + container/heap, puller.run/replenish goroutines over unbuffered channels, op.Catcher) over 2-3 model parents, with the comparator compiler/kernel builds for `merge k`: pulling until EOS yields, without error, every value the parents delivered in this round exactly once (values are tagged), in key order (non-decreasing for asc, non-increasing for desc), each parent's values in the order it delivered them, and the pull sequence terminates with EOS; after that EOS the operator restarts (start() after EOS) and the SECOND round delivers the parents' next streams the same way.
 // verif:bounds 4 shapes (2-3 parents x 2 rounds; per parent and round 0-3 batches of 0-2 values: includes an empty non-nil batch first/between/last, a parent immediately at EOS in round 1 resp. round 2); <= 5 values per round; keys int64 symbolic in 1..127 (one-byte body, ties possible), order asc or desc (Choose), each parent's stream sorted that way (assumed); comparator expr.NewComparator(nullsMax=true, k asc|desc).WithMissingAsNull()
 // verif:outside Pull(done=true)/propagateDone, upstream errors, null/missing keys (the comparator itself: C06-O1..O3), value-at-a-time Read mixed with Pull (C06-O4); one deterministic goroutine schedule
-func VerifH_C06_O8_merge_exec() {
-	verif.Goroutines(true)
+func VerifH_C06_O8_merge_exec() { v06fMerge(0) }
+
+// verif:desc C08-O5s the merge operator that re-joins ordered parallel legs, same run and same assertions as VerifH_C06_O8_merge_exec, under EVERY goroutine schedule with at most 1 preemption (thorough tier: 2) at the channel operations, selects, closes, lock operations and goroutine starts of the real Op.run/puller.run/replenish code, with a bounded free choice of which runnable goroutine continues: the merged output (complete, exactly once, key order, per-leg order, EOS, restart) does not depend on the schedule
+// verif:bounds shapes as VerifH_C06_O8_merge_exec; keys concrete: all equal (every comparison a tie) or strictly monotone per leg with ties across legs (Choose); asc/desc; preemption bound 1 (thorough: 2)
+// verif:outside as VerifH_C06_O8_merge_exec except that schedules are explored up to the bound; symbolic keys (VerifH_C06_O8_merge_exec); field loads/stores are not preemption points (data-race freedom between sync points is assumed)
+func VerifH_C08_O5s_merge_schedules() {
+	if verif.Thorough() {
+		v06fMerge(2)
+	} else {
+		v06fMerge(1)
+	}
+}
+
+func v06fMerge(sched int) {
+	keys := 0
+	if sched > 0 {
+		verif.Schedules(sched)
+		keys = verif.Choose("keys", 2)
+	} else {
+		verif.Goroutines(true)
+	}
 	zctx := zed.NewContext()
 	rt := zctx.MustLookupTypeRecord([]zed.Field{
 		zed.NewField("k", zed.TypeInt64),
@@ -87,7 +106,25 @@ func VerifH_C06_O8_merge_exec() {
 			for _, n := range shape[r][p] {
 				vals := make([]zed.Value, 0, n)
 				for i := 0; i < n; i++ {
-					x := verif.Byte("k" + string(rune('a'+tag)))
+					var x byte
+					if sched > 0 {
+						// schedules are the quantifier: concrete keys
+						x = 2
+						if keys == 1 {
+							switch {
+							case first && desc:
+								x = 18
+							case first:
+								x = 2
+							case desc:
+								x = last - 2
+							default:
+								x = last + 2
+							}
+						}
+					} else {
+						x = verif.Byte("k" + string(rune('a'+tag)))
+					}
 					verif.Assume(x != 0)
 					verif.Assume(x&1 == 0) // int64 1..127
 					// the parent's stream is sorted as the merge is ordered
